@@ -51,17 +51,28 @@ def confirm(wt, patch, demo):
     res["with_patch_suite"] = {"compiled": compiled, "passed": passed, "failed": failed}
     # 2. demo with the patch
     shutil.copy(demo, os.path.join(tdir, name + ".rs"))
-    feats = "--features use-std,heapless,use-crc,experimental-derive" if crate == "postcard" else ""
-    rc_with, out_with = sh("cargo test -p %s --test %s --offline %s 2>&1" % (crate, name, feats), cwd=wt)
-    if "error: could not compile" in out_with or "error[E" in out_with:
-        # retry with default features
-        rc_with, out_with = sh("cargo test -p %s --test %s --offline 2>&1" % (crate, name), cwd=wt)
-        feats = ""
+    # candidate invocations: workspace-unified features first, then crate-specific feature sets
+    cands = ["cargo test --workspace --offline --test %s" % name,
+             "cargo test -p %s --test %s --offline --features use-std,heapless,use-crc,experimental-derive" % (crate, name),
+             "cargo test -p %s --test %s --offline --features use-std,derive" % (crate, name),
+             "cargo test -p postcard-schema --offline --features derive,use-std,postcard/experimental-derive --test %s" % name,
+             "cargo test -p %s --test %s --offline" % (crate, name)]
+    chosen = None
+    for c in cands:
+        rc_with, out_with = sh(c + " 2>&1", cwd=wt)
+        ran = re.findall(r"running (\d+) tests?", out_with)
+        if "error: could not compile" in out_with or "error[E" in out_with or not any(int(x) > 0 for x in ran):
+            continue
+        chosen = c
+        break
+    res["demo_command"] = chosen
+    if chosen is None:
+        chosen = cands[0]
     res["demo_with_patch_fails"] = rc_with != 0 and ("test result: FAILED" in out_with or "panicked" in out_with)
     res["demo_with_patch_tail"] = out_with[-600:]
     # 3. demo without the patch
     sh("git apply -R %s" % patch, cwd=wt)
-    rc_wo, out_wo = sh("cargo test -p %s --test %s --offline %s 2>&1" % (crate, name, feats), cwd=wt)
+    rc_wo, out_wo = sh(chosen + " 2>&1", cwd=wt)
     res["demo_without_patch_passes"] = rc_wo == 0 and "test result: ok" in out_wo
     res["demo_without_patch_tail"] = out_wo[-300:]
     sh("git checkout -- . && git clean -fdq -e target", cwd=wt)
